@@ -2,3 +2,4 @@ import MatidGen.Radii
 import MatidGen.AllGroups
 import MatidGen.Centring
 import MatidGen.WyckoffRule
+import MatidGen.DimRule
